@@ -187,6 +187,12 @@ Fixpoint teval (fuel : nat) (env : list (name * value)) (a : ast) {struct fuel} 
 
 End Teval.
 
+Definition tdecided {A} (r : res A) : Prop := match r with OOF | Unsup => False | _ => True end.
+
+(* t' has the same traced meaning as t wherever t is decided *)
+Definition tseq known host (t t' : ast) : Prop :=
+  forall n env, tdecided (fst (teval known host n env t)) -> teval known host n env t' = teval known host n env t.
+
 (* the calls an evaluation made, and how often a given host function was called *)
 Definition trace_of {A} (p : tres A) : list event := snd p.
 Definition count_calls (f : name) (tr : list event) : nat :=
